@@ -485,7 +485,7 @@ class SSETransport(Transport):
                             # Send timeout error
                             error_response = {
                                 "jsonrpc": "2.0",
-                                "id": message_id,
+                                "id": message_dict.get("id"),
                                 "error": {"code": -32000, "message": "Request timeout"},
                             }
                             await self._route_incoming_message(error_response)
@@ -504,7 +504,7 @@ class SSETransport(Transport):
                             # Send error response
                             error_response = {
                                 "jsonrpc": "2.0",
-                                "id": message_id,
+                                "id": message_dict.get("id"),
                                 "error": {
                                     "code": -32603,
                                     "message": f"HTTP {response.status_code}: {response.text[:100]}",
@@ -517,7 +517,7 @@ class SSETransport(Transport):
                     # Send error response
                     error_response = {
                         "jsonrpc": "2.0",
-                        "id": message_id,
+                        "id": message_dict.get("id"),
                         "error": {"code": -32603, "message": str(e)},
                     }
                     await self._route_incoming_message(error_response)
